@@ -142,7 +142,7 @@ def instance_fails(kind, desc, sig):
 def run(ctx):
     ctx.prove()
     rng = ctx.rng
-    count = 300 if ctx.quick else 3000
+    count = 300 if ctx.quick else 6000
     max_n = 14 if ctx.quick else 18
     stats = {"feasible_instances": 0, "infeasible_instances": 0, "vehicles_added_by_heuristic": 0,
              "negative_costs": 0, "ratio_high_over_cost>=1e5": 0, "ratio_high_over_cost<=1e-2": 0, "ties_in_optimum": 0}
